@@ -139,13 +139,13 @@ Section Inv.
       destruct l; [congruence|cbn [length]; lia]. }
     destruct (s_cur st) as [[ci cd]|] eqn:Ec.
     - destruct (merge_split mx ci (Some (d_items d))) as [|first rest] eqn:El; [exact Hfire|].
-      set (l := first :: rest).
-      destruct (with_ref_cells st d l) as (W1 & W2 & W3 & W4 & W5 & W6 & W7 & W8 & W9).
-      set (st1 := with_ref st d l) in *.
-      set (cur' := (first, cd ++ [d])).
       destruct rest as [|r0 rest'] eqn:Er.
-      + (* one part: merged into the current batch *)
-        assert (Hlen1 : (1 <? Z.of_nat (length l)) = false) by reflexivity. rewrite ?Hlen1. cbn [orb].
+      + (* one part: merged into the current batch (it holds the new request) *)
+        replace (1 <? Z.of_nat (length [first])) with false by reflexivity. cbn [negb orb].
+        set (l := [first]).
+        destruct (with_ref_cells st d l) as (W1 & W2 & W3 & W4 & W5 & W6 & W7 & W8 & W9).
+        set (st1 := with_ref st d l) in *.
+        set (cur' := (first, cd ++ [d])).
         destruct (mn <=? first).
         * apply (Hplace l); try (unfold l; discriminate); try (cbn; first [reflexivity|assumption]).
           intros g. rewrite !dsum_refs. unfold push_flushes. cbn [s_cur s_hung s_flushq set_flushq set_cur]. rewrite ?W7, ?W8, ?W9, ?Ec, ?fdones_app, ?dsum_app. cbn [fdones flat_map snd odones cur' app].
@@ -153,16 +153,33 @@ Section Inv.
         * apply (Hplace l); try (unfold l; discriminate); try (cbn; first [reflexivity|assumption]).
           intros g. rewrite !dsum_refs. unfold push_flushes. cbn [s_cur s_hung s_flushq set_flushq set_cur]. rewrite ?W7, ?W8, ?W9, ?Ec. cbn [odones snd cur'].
           rewrite ?dsum_app, ?dsum_cons, ?dsum_nil. replace (Z.of_nat (length l)) with 1 by reflexivity. lia.
-      + assert (Hlen : 1 <? Z.of_nat (length l) = true) by (apply Z.ltb_lt; unfold l; cbn [length]; lia).
-        rewrite Hlen. cbn [orb].
+      + assert (Hlen : 1 <? Z.of_nat (length (first :: r0 :: rest')) = true) by (apply Z.ltb_lt; cbn [length]; lia).
+        rewrite Hlen. cbn [negb orb].
         pose proof (length_removelast (r0 :: rest') ltac:(discriminate)) as LR.
-        destruct (last (r0 :: rest') 0 <? mn).
-        * apply (Hplace l); try (unfold l; discriminate); try (cbn; first [reflexivity|assumption]).
-          intros g. rewrite !dsum_refs. unfold push_flushes. cbn [s_cur s_hung s_flushq set_flushq set_cur]. rewrite ?W7, ?W8, ?W9, ?Ec, ?fdones_app, ?dsum_app, ?dsum_fd_map, ?LR. cbn [fdones flat_map snd odones cur' app].
-          rewrite ?dsum_app, ?dsum_cons, ?dsum_nil. replace (Z.of_nat (length l)) with (1 + Z.of_nat (length (r0 :: rest'))) by (unfold l; cbn [length]; lia). lia.
-        * apply (Hplace l); try (unfold l; discriminate); try (cbn; first [reflexivity|assumption]).
-          intros g. rewrite !dsum_refs. unfold push_flushes. cbn [s_cur s_hung s_flushq set_flushq set_cur]. rewrite ?W7, ?W8, ?W9, ?Ec, ?fdones_app, ?dsum_app, ?dsum_fd_map. cbn [fdones flat_map snd odones cur' app].
-          rewrite ?dsum_app, ?dsum_cons, ?dsum_nil. replace (Z.of_nat (length l)) with (1 + Z.of_nat (length (r0 :: rest'))) by (unfold l; cbn [length]; lia). lia.
+        destruct (first =? ci) eqn:Efc; cbn [negb].
+        * (* nothing of the new request fitted into the first result: it gets no Done of this request *)
+          set (l := r0 :: rest') in *.
+          destruct (with_ref_cells st d l) as (W1 & W2 & W3 & W4 & W5 & W6 & W7 & W8 & W9).
+          set (st1 := with_ref st d l) in *.
+          set (cur' := (first, cd)).
+          destruct (last l 0 <? mn).
+          -- apply (Hplace l); try (unfold l; discriminate); try (cbn; first [reflexivity|assumption]).
+             intros g. rewrite !dsum_refs. unfold push_flushes. cbn [s_cur s_hung s_flushq set_flushq set_cur]. rewrite ?W7, ?W8, ?W9, ?Ec, ?fdones_app, ?dsum_app, ?dsum_fd_map, ?LR. cbn [fdones flat_map snd odones cur' app].
+             rewrite ?dsum_app, ?dsum_cons, ?dsum_nil. unfold l. lia.
+          -- apply (Hplace l); try (unfold l; discriminate); try (cbn; first [reflexivity|assumption]).
+             intros g. rewrite !dsum_refs. unfold push_flushes. cbn [s_cur s_hung s_flushq set_flushq set_cur]. rewrite ?W7, ?W8, ?W9, ?Ec, ?fdones_app, ?dsum_app, ?dsum_fd_map. cbn [fdones flat_map snd odones cur' app].
+             rewrite ?dsum_app, ?dsum_cons, ?dsum_nil. unfold l. lia.
+        * set (l := first :: r0 :: rest').
+          destruct (with_ref_cells st d l) as (W1 & W2 & W3 & W4 & W5 & W6 & W7 & W8 & W9).
+          set (st1 := with_ref st d l) in *.
+          set (cur' := (first, cd ++ [d])).
+          destruct (last (r0 :: rest') 0 <? mn).
+          -- apply (Hplace l); try (unfold l; discriminate); try (cbn; first [reflexivity|assumption]).
+             intros g. rewrite !dsum_refs. unfold push_flushes. cbn [s_cur s_hung s_flushq set_flushq set_cur]. rewrite ?W7, ?W8, ?W9, ?Ec, ?fdones_app, ?dsum_app, ?dsum_fd_map, ?LR. cbn [fdones flat_map snd odones cur' app].
+             rewrite ?dsum_app, ?dsum_cons, ?dsum_nil. replace (Z.of_nat (length l)) with (1 + Z.of_nat (length (r0 :: rest'))) by (unfold l; cbn [length]; lia). lia.
+          -- apply (Hplace l); try (unfold l; discriminate); try (cbn; first [reflexivity|assumption]).
+             intros g. rewrite !dsum_refs. unfold push_flushes. cbn [s_cur s_hung s_flushq set_flushq set_cur]. rewrite ?W7, ?W8, ?W9, ?Ec, ?fdones_app, ?dsum_app, ?dsum_fd_map. cbn [fdones flat_map snd odones cur' app].
+             rewrite ?dsum_app, ?dsum_cons, ?dsum_nil. replace (Z.of_nat (length l)) with (1 + Z.of_nat (length (r0 :: rest'))) by (unfold l; cbn [length]; lia). lia.
     - destruct (merge_split mx (d_items d) None) as [|a l0] eqn:El; [exact Hfire|].
       set (l := a :: l0).
       destruct (with_ref_cells st d l) as (W1 & W2 & W3 & W4 & W5 & W6 & W7 & W8 & W9).
